@@ -174,21 +174,69 @@ func c03SendTimeout(c *mon.Case, sp c03Spec) {
 		}
 	}
 	const D = 10 * time.Millisecond
-	cx.SetOption(mangos.OptionSendDeadline, D)
-	k := mon.Go("Send", func() (interface{}, error) { return nil, cx.Send([]byte("never-leaves")) })
-	if !c.AwaitOrViolate("req/send-stuck", "Send with a 10ms send deadline and no connection able to take the request", k.Done, mon.AwaitOpts{MaxTimer: D}) {
-		return
-	}
-	if _, err, _ := k.Result(); err != mangos.ErrSendTimeout {
-		c.Inconclusive("Send returned %v, not the send-timeout error", err)
-		return
+	// how the request that never leaves comes to its end: "senddl" a send deadline expires; "be-recvdl" a
+	// best-effort Send queued it (returning nil) and a Recv runs into its receive deadline; "recvdl" a Send
+	// without deadline is still waiting for a connection when a concurrent Recv on the same context runs
+	// into its receive deadline.  Afterwards no request is outstanding.
+	end := []string{"senddl", "be-recvdl", "recvdl"}[(sp.NOps/4)%3]
+	switch end {
+	case "senddl":
+		cx.SetOption(mangos.OptionSendDeadline, D)
+		k := mon.Go("Send", func() (interface{}, error) { return nil, cx.Send([]byte("never-leaves")) })
+		if !c.AwaitOrViolate("req/send-stuck", "Send with a 10ms send deadline and no connection able to take the request", k.Done, mon.AwaitOpts{MaxTimer: D}) {
+			return
+		}
+		if _, err, _ := k.Result(); err != mangos.ErrSendTimeout {
+			c.Inconclusive("Send returned %v, not the send-timeout error", err)
+			return
+		}
+	case "be-recvdl":
+		cx.SetOption(mangos.OptionBestEffort, true)
+		k := mon.Go("Send", func() (interface{}, error) { return nil, cx.Send([]byte("never-leaves")) })
+		if !c.AwaitOrViolate("req/send-stuck", "best-effort Send with no connection able to take the request", k.Done, mon.AwaitOpts{}) {
+			return
+		}
+		if _, err, _ := k.Result(); err != nil {
+			c.Inconclusive("best-effort Send returned %v", err)
+			return
+		}
+		cx.SetOption(mangos.OptionBestEffort, false)
+		cx.SetOption(mangos.OptionRecvDeadline, D)
+		rk := mon.Go("Recv", func() (interface{}, error) { b, e := cx.Recv(); return b, e })
+		if !c.AwaitOrViolate("req/recv-stuck", "Recv with a 10ms receive deadline on a queued, unsent request", rk.Done, mon.AwaitOpts{MaxTimer: D}) {
+			return
+		}
+		if _, err, _ := rk.Result(); err != mangos.ErrRecvTimeout {
+			c.Violate("req/recv-deadline-error", "Recv with a 10ms deadline on an unanswered (unsent) request returned %v", err)
+			return
+		}
+		cx.SetOption(mangos.OptionRecvDeadline, time.Duration(0))
+	case "recvdl":
+		k := mon.Go("Send", func() (interface{}, error) { return nil, cx.Send([]byte("never-leaves")) })
+		if !k.ParkedIn("SendMsg") {
+			c.Inconclusive("Send neither parked nor done")
+			return
+		}
+		cx.SetOption(mangos.OptionRecvDeadline, D)
+		rk := mon.Go("Recv", func() (interface{}, error) { b, e := cx.Recv(); return b, e })
+		if !c.AwaitOrViolate("req/recv-stuck", "Recv with a 10ms receive deadline while the Send of its request still waits for a connection", rk.Done, mon.AwaitOpts{MaxTimer: D}) {
+			return
+		}
+		if _, err, _ := rk.Result(); err != mangos.ErrRecvTimeout {
+			c.Violate("req/recv-deadline-error", "Recv with a 10ms deadline on an unanswered (unsent) request returned %v", err)
+			return
+		}
+		if !c.AwaitOrViolate("req/send-stuck", "the Send whose request was cancelled by the receive deadline", k.Done, mon.AwaitOpts{}) {
+			return
+		}
+		cx.SetOption(mangos.OptionRecvDeadline, time.Duration(0))
 	}
 	rk := mon.Go("Recv", func() (interface{}, error) { b, e := cx.Recv(); return b, e })
-	if !c.AwaitOrViolate("req/recv-stuck", "Recv after a Send that failed with the send-timeout error (no request is outstanding)", rk.Done, mon.AwaitOpts{}) {
+	if !c.AwaitOrViolate("req/recv-stuck:no-request-after-unsent-"+end, "Recv after the unsent request came to its end (no request is outstanding)", rk.Done, mon.AwaitOpts{}) {
 		return
 	}
 	if v, err, _ := rk.Result(); err != mangos.ErrProtoState {
-		c.Violate("req/no-request-recv-error", "Recv after a Send that timed out returned (%q, %v), want ErrProtoState", v, err)
+		c.Violate("req/no-request-recv-error", "Recv after the unsent request ended (%s) returned (%q, %v), want ErrProtoState", end, v, err)
 		return
 	}
 	c.Count("recv_calls", 1)
@@ -219,6 +267,13 @@ func c03SendTimeout(c *mon.Case, sp c03Spec) {
 	}, mon.AwaitOpts{}) {
 		return
 	}
+	// the abandoned request was queued before this one: had it been kept it would be on the wire by now
+	for _, x := range r.SentLog() {
+		if w := x.Wire(); len(w) >= 4 && string(w[4:]) == "never-leaves" {
+			c.Violate("req/abandoned-unsent-request-transmitted", "the request that ended unsent (%s) was transmitted once a connection became available", end)
+			return
+		}
+	}
 	r.Inject(hx.ReplyWire(id, 7))
 	rk2 := mon.Go("Recv", func() (interface{}, error) { b, e := cx.Recv(); return b, e })
 	if !c.AwaitOrViolate("req/recv-stuck", "Recv of the reply to the later request", rk2.Done, mon.AwaitOpts{}) {
@@ -230,5 +285,5 @@ func c03SendTimeout(c *mon.Case, sp c03Spec) {
 	}
 	c.Count("replies_delivered", 1)
 	c.Nontrivial()
-	c.Sig("sendtimeout|%d", sp.NOps%4)
+	c.Sig("sendtimeout|%d|%s", sp.NOps%4, end)
 }
